@@ -40,7 +40,13 @@ func (r *blockReader) Read(offset int64, key string) (string, bool) {
 // earlier and kept alive must answer the same after the case built another one.
 func checkC12(c *Case, s *Stats) error {
 	if c.Gen == "concurrent-round" {
-		return concurrentIndexes(c.Block, s)
+		// a replay: the outcome depends on the schedule, so the round is repeated
+		for rep := 0; rep < 40; rep++ {
+			if err := concurrentIndexes(c.Block, s); err != nil {
+				return err
+			}
+		}
+		return nil
 	}
 	var ekeys []string
 	for i := 0; i < 40; i++ {
